@@ -34,6 +34,7 @@ fn main() {
         "cdriver" => h::eng_capi::main_cdriver(rest),
         "flushdist" => h::eng_repair::main_flushdist(rest),
         "skipscan" => h::eng_repair::main_skipscan(rest),
+        "blockruns" => h::eng_fault::main_blockruns(rest),
         "capimem" => h::eng_capi::main_mem(rest),
         "mem" => h::eng_mem::main(rest),
         "compfs" => h::eng_compfs::main(rest),
